@@ -90,6 +90,22 @@ def build_cli():
     _built["cli"] = time.time() - t0
 
 
+CLI_DEV = os.path.join(CLI_TARGET, "debug", "bindgen")
+
+
+def build_cli_dev():
+    """The CLI in cargo's dev profile (unoptimised, large stack frames): what a `cargo build` of a workspace that uses bindgen
+    gives. Used where stack depth matters (C12)."""
+    if _built.get("cli_dev"):
+        return
+    t0 = time.time()
+    p = sh(["cargo", "build", "-p", "bindgen-cli", "--offline", "--target-dir", CLI_TARGET], cwd=REPO)
+    if p.returncode != 0:
+        sys.stdout.write(p.stderr.decode(errors="replace")[-4000:])
+        die_machinery("dev-profile bindgen CLI failed to build")
+    _built["cli_dev"] = time.time() - t0
+
+
 def build_all():
     build_vdriver()
     build_cli()
